@@ -51,6 +51,9 @@ func c11Configs(tier string) []vmc.Cfg {
 		mk("request+message", "req:P:r1", "msg:P:m1", "req:P:r2"),
 		mk("disconnect", "req:P:r1,r3", "req:P:r2", "disc:P"),
 		mk("cancel", "req:P:r1", "req:P:r2", "cancel:r1"),
+		// a fire-and-forget message whose context is already cancelled, issued while an exchange with the
+		// same peer holds the per-peer lock (then its Lock has exactly one ready case: the cancelled context)
+		mk("cancelled-message", "req:P:r1", "req:P:r2", "cmsg:P:m1"),
 	}
 }
 
@@ -154,6 +157,7 @@ func c11Run(x *vmc.X, cfg vmc.Cfg) {
 	}()
 	cancelID := ""
 	cancelDone := false
+	cmsgTo, cmsgID, cmsgDone := "", "", false
 	for ti, th := range c.threads {
 		parts := splitColon(th)
 		kind := parts[0]
@@ -198,6 +202,8 @@ func c11Run(x *vmc.X, cfg vmc.Cfg) {
 			})
 		case "cancel":
 			cancelID = parts[1]
+		case "cmsg":
+			cmsgTo, cmsgID = parts[1], parts[2]
 		}
 	}
 	idle := 0
@@ -248,6 +254,43 @@ func c11Run(x *vmc.X, cfg vmc.Cfg) {
 			}
 			if started && !returned && !parkedNow {
 				acts = append(acts, vmc.Action{Label: "cancel " + cancelID, Cost: 1, Do: func() { cancelDone = true; ctxs[cancelID]() }})
+			}
+		}
+		if cmsgID != "" && !cmsgDone {
+			// some request to that peer is inside SendRequest (started, not returned): one of them holds the lock
+			mu.Lock()
+			inside := false
+			for id, at := range callAt {
+				if at == 0 || !strings.HasPrefix(id, "r") {
+					continue
+				}
+				returned := false
+				for _, r := range results {
+					if r.id == id {
+						returned = true
+					}
+				}
+				if !returned {
+					inside = true
+				}
+			}
+			mu.Unlock()
+			if inside {
+				acts = append(acts, vmc.Action{Label: "message with a cancelled context", Cost: 1, Do: func() {
+					cmsgDone = true
+					cctx, ccancel := context.WithCancel(context.Background())
+					ccancel()
+					to := peers[cmsgTo]
+					sched.GoNow("t-"+cmsgID, func() {
+						r := &c11result{id: cmsgID, to: to, kind: "msg"}
+						r.callAt = tick()
+						r.err = ms.SendMessage(cctx, to, pb.NewMessage(pb.Message_PING, []byte(cmsgID), 0))
+						r.retAt = tick()
+						mu.Lock()
+						results = append(results, r)
+						mu.Unlock()
+					})
+				}})
 			}
 		}
 		if !sched.Step(acts) {
